@@ -674,3 +674,27 @@ func (r *FnRun) errDiscarded(name string) bool {
 	}
 	return r.errDisc[name]
 }
+
+
+// belongsSupport: obligations of a function that is in the check only because a selected function relies on its
+// contract: every clause counts (its tags say which property it was written for, not which proofs use it);
+// discipline kinds only where the property claims them; the error-flow sweep is left to the properties that claim it.
+func (p *PropSpec) belongsSupport(o *Obligation) bool {
+	if o.Kind == "canary" {
+		return true
+	}
+	if disciplineKinds[o.Kind] {
+		for _, k := range p.Kinds {
+			if k == o.Kind {
+				return true
+			}
+		}
+		return false
+	}
+	for _, s := range p.Exclude {
+		if globMatch(s.Func, "*:"+o.Func) && globMatch(s.Kind, o.Kind) && globMatch(s.Label, o.Label) {
+			return false
+		}
+	}
+	return true
+}
